@@ -41,6 +41,10 @@ CHECKS = {
         technique='property-based round-trip testing plus policy fault injection: generated values -> dump_json -> load_json compared by canonical form; mutated documents loaded under recording policies with a spy on symbol resolution',
         text='Hypothesis generates DAGs with every serializable leaf/container type (huge ints, special floats, surrogates, escape-like bytes, enums, slices, NO_VALUE, sets, named tuples, defaultdicts, arbitrary hashable dict keys, registered constant, dict-based object, tags, unset parameters, sharing); dump must raise or produce JSON whose load has the same canonical form and re-dumps identically, without invoking any callable. Policy cases mutate pyrefs of real documents to canary/forbidden symbols and load them under allow-list / deny-all / deny-by-value policies while a spy checks that every resolved symbol was approved by both policy questions during that resolution.',
         note='Trusted: harness/canon.py, the import_symbol spy and RecordingPolicy in props/c09.py, json.loads as the reference JSON parser.'),
+    'C10': dict(
+        technique='property-based round-trip testing over generated configuration pairs (independent, identity-sharing, k random edits); canonical-form oracle independent of Fiddle ==',
+        text='Pairs (old, new) are generated as two independent DAG recipes, as a shallow top-level copy sharing every sub-object with old and then edited, or as up to 6 random edits (value change, callable swap with and without dropped arguments, argument/tag add/remove, alias created/broken, subtree moved, list/dict growth and shrink) of a deep copy; build_diff must succeed and apply_diff on a copy of old must yield the canonical form of new in place, leaving diff and new untouched; the self-diff must be empty. Positional arguments and changed elements inside aligned tuples are listed known findings, excluded from most of the campaign and re-confirmed by replay.',
+        note='Trusted: harness/canon.py, the edit interpreter in props/c10.py. Diff shape is never judged.'),
 }
 
 PENDING = {}
